@@ -169,4 +169,32 @@ let () =
   register "dt" (fun a -> match a with
     | [fn; _; kd; arr; ax; init] ->
         (Hashtbl.find handlers "reduce") [fn; Str "named"; Str "x"; kd; Str "dyn"; arr; ax; init]
-    | _ -> failwith "dt")
+    | _ -> failwith "dt");
+  (* u8 S:fn S:kd A:arr axis init — uint8 data: the accumulator keeps the operand's element type, i.e. f = (op) mod 256,
+     an instance of the arbitrary f of the theorems *)
+  register "u8" (fun a -> match a with
+    | [fn; kd; arr; ax; init] ->
+        let (s, d) = getA arr in
+        let m = z_of_int 256 in
+        let f = (match getS fn with
+          | "sum" | "cumsum" -> (fun x y -> Z.modulo (Z.add x y) m)
+          | "prod" -> (fun x y -> Z.modulo (Z.mul x y) m)
+          | t -> failwith ("u8 " ^ t)) in
+        let src = elem_at s d in
+        if getS fn = "cumsum" then begin
+          let axv = getI ax and n = zlen s in
+          let model = show_view string_of_z s (fun i -> accumulate_at f src axv i) in
+          let valid = Z.leb (Z.opp n) axv && Z.ltb axv n in
+          { model; spec = (if valid then show_view string_of_z s (fun i -> accumulate_spec f src n axv i) else "unspecified");
+            dom = posb s && Z.leb Z0 axv && Z.ltb axv n }
+        end else begin
+          let kd = kd_of (getS kd) and ax = axis_of ax in
+          let init = (match init with N -> None | I v -> Some (Z.modulo v m) | _ -> failwith "init") in
+          let model = (match remove_dims s ax kd with
+            | None -> "ub"
+            | Some shp -> show_view string_of_z shp (fun i -> reduce_at f src s ax kd init i)) in
+          let ok = axes_ok (zlen s) ax in
+          { model; spec = (if ok then show_view string_of_z (reduce_shape_spec s ax kd) (fun i -> reduce_spec f src s ax kd init i) else "unspecified");
+            dom = posb s && ok }
+        end
+    | _ -> failwith "u8")
